@@ -34,6 +34,9 @@ def tensor_method(
 
 def evaluate_cffi(assignment: str, output_format: str, **inputs: Tensor) -> Tensor:
     parsed_assignment = parse_assignment(assignment).alt(raise_exception).unwrap()
+    for name, tensor in inputs.items():
+        if not isinstance(tensor, Tensor):
+            raise TypeError(f"Argument {name} must be a Tensor not {type(tensor)}")
     input_formats = {name: tensor.format for name, tensor in inputs.items()}
     parsed_output_format = parse_format(output_format).alt(raise_exception).unwrap()
 
@@ -48,6 +51,9 @@ def evaluate_cffi(assignment: str, output_format: str, **inputs: Tensor) -> Tens
 
 def evaluate_tensora(assignment: str, output_format: str, **inputs: Tensor) -> Tensor:
     parsed_assignment = parse_assignment(assignment).alt(raise_exception).unwrap()
+    for name, tensor in inputs.items():
+        if not isinstance(tensor, Tensor):
+            raise TypeError(f"Argument {name} must be a Tensor not {type(tensor)}")
     input_formats = {name: tensor.format for name, tensor in inputs.items()}
     parsed_output_format = parse_format(output_format).alt(raise_exception).unwrap()
 
